@@ -320,6 +320,34 @@ func installModels(e *Engine) {
 			return res, true
 		}
 	}
+	e.intercept["strings.EqualFold"] = func(e *Engine, fr *Frame, c *Ctx, a []Value, _ *ssa.CallCommon) (Value, bool) {
+		x, y := fl(a[0].(StrV)), fl(a[1].(StrV))
+		if cx, ok := x.Concrete(); ok {
+			if cy, ok := y.Concrete(); ok {
+				return BoolV{BoolC(strings.EqualFold(cx, cy))}, true
+			}
+		}
+		lower := func(b *Term) *Term {
+			return Ite(And(Ule(BV(8, 'A'), b), Ule(b, BV(8, 'Z'))), Add(b, BV(8, 32)), b)
+		}
+		conj := []*Term{Eq(x.Len, y.Len)}
+		var nonASCII []*Term
+		n := min(len(x.B), len(y.B))
+		for i := 0; i < n; i++ {
+			live := Ult(BV(64, uint64(i)), x.Len)
+			conj = append(conj, Or(Not(live), Eq(lower(x.B[i]), lower(y.B[i]))))
+		}
+		for _, s := range []StrV{x, y} {
+			for i, b := range s.B {
+				nonASCII = append(nonASCII, And(Ult(BV(64, uint64(i)), s.Len), Ule(BV(8, 0x80), b)))
+			}
+		}
+		if len(x.B) != len(y.B) {
+			conj = append(conj, Ule(x.Len, BV(64, uint64(n))))
+		}
+		e.Obls = append(e.Obls, Obligation{Kind: "assert", ID: "engine: strings.EqualFold model needs ASCII arguments", Cond: And(c.S.PC, Or(nonASCII...))})
+		return BoolV{And(conj...)}, true
+	}
 	caseMap("strings.ToUpper", true)
 	caseMap("strings.ToLower", false)
 	e.intercept["reflect.ValueOf"] = func(e *Engine, fr *Frame, c *Ctx, a []Value, cc *ssa.CallCommon) (Value, bool) {
